@@ -49,7 +49,9 @@ def spellings(language, rng):
 
 
 def decoy_comment(language, rng):
-    body = rng.choice(["see nocl", "not nocl", "no cl", "todo nocl later", "x nocl", "disable: nocl"])
+    body = rng.choice(["see nocl", "not nocl", "no cl", "todo nocl later", "x nocl", "disable: nocl",
+                       "noqa: C901  # nocl was dropped here", "TODO split this up; nocl is not an option", "tracked in #nocl-42",
+                       "see // nocl", "was /* nocl", "x ;nocl", "NOT # NOCL", "a; NoCl", "-nocl", ".nocl", "\"nocl\""])
     if language == "Python":
         return f"# {body}"
     return f"// {body}" if rng.random() < 0.7 else f"/* {body} */"
@@ -205,6 +207,65 @@ def one_program(ctx, language, prog, rng, random_subsets):
                               {"decoy": kind, "line": at, "comment": text_add, "missing": [x for x in base if repr(x) not in gs][:5]})
 
 
+def same_line_cases(ctx, language, rng, n):
+    """several one-line functions share a physical line; a marker on that line must suppress every function whose name sits there
+    ('omitted exactly when a marker comment sits on the line of the function's name'), and nothing else"""
+    if language == "Python":
+        return
+    wrap = language in ("Java", "C#")
+    for case_i in range(n):
+        lines, names_on = [], {}
+        k = 0
+        for ln in range(rng.randint(2, 5)):
+            cnt = rng.choice([1, 2, 2, 3])
+            parts = []
+            for _ in range(cnt):
+                name = f"one{k}"
+                k += 1
+                parts.append(canon.exact_length_function(language, 1, name).strip())
+                names_on.setdefault(len(lines), []).append(name)
+            lines.append(("    " if wrap else "") + " ".join(parts))
+            if rng.random() < 0.4:
+                lines.append(("    " if wrap else "") + canon.exact_length_function(language, 3, f"multi{k}").replace("\n", "\n" + ("    " if wrap else "")).rstrip())
+                k += 1
+        text = ("public class Holder {\n" + "\n".join(lines) + "\n}\n") if wrap else "\n".join(lines) + "\n"
+        try:
+            base = analyze(language, text)
+        except Exception as e:
+            ctx.notes.append(f"same-line base analysis raised {type(e).__name__}")
+            continue
+        phys = text.split("\n")
+        marked_idx = [i for i in names_on if rng.random() < 0.5] or [next(iter(names_on))]
+        additions = {}
+        removed_names = set()
+        for i in marked_idx:
+            line_no = next(j + 1 for j, l in enumerate(phys) if l.strip() == lines[i].strip())
+            additions[line_no] = spellings(language, rng)
+            removed_names |= set(names_on[i])
+        marked, spans = append_to_lines(text, additions)
+        case = {"language": language, "text": text, "additions": {str(a): b for a, b in additions.items()}, "decoy": False, "same_line": True}
+        if not lexed_as_comment(language, marked, spans, text):
+            ctx.count("cases.invalid_marker_not_lexed_as_comment")
+            continue
+        ctx.eval()
+        try:
+            got = analyze(language, marked)
+        except Exception as e:
+            ctx.violation("exception_on_marked", case, {"error": f"{type(e).__name__}: {e}"})
+            continue
+        ctx.count("monitor.marked_relation_checked")
+        ctx.count("monitor.same_line_cases")
+        exp = [m for m in base if m[0] not in removed_names]
+        if len(base) - len(exp) != len(removed_names):
+            ctx.count("cases.base_lacks_a_marked_function_not_judged")
+            continue
+        ctx.distinct([language, marked])
+        if got != exp:
+            ctx.violation("marked_relation", case, {"markers": additions, "functions_on_marked_lines": sorted(removed_names),
+                                                    "still_reported_or_changed": [x for x in got if x not in exp][:5],
+                                                    "missing": [x for x in exp if x not in got][:5]})
+
+
 def run(shard, ctx):
     lang = shard["language"]
     rng = rng_for(shard["seed"], "c17", lang, shard["part"])
@@ -216,6 +277,7 @@ def run(shard, ctx):
             continue
         ctx.count("programs")
         one_program(ctx, lang, prog, rng, shard["random_subsets"])
+    same_line_cases(ctx, lang, rng, 12 * (shard["programs"] // shard["parts"] + 1))
 
 
 def replay(case, ctx):
@@ -225,6 +287,13 @@ def replay(case, ctx):
     base = analyze(lang, case["text"])
     got = analyze(lang, marked)
     ctx.eval()
+    if case.get("same_line"):
+        names_on = set()
+        tokens = __import__("codelimit.common.lexer_utils", fromlist=["lex"]).lex(pipeline.lexer_for(lang), case["text"], False)
+        exp = [m for m in base if not any(t.is_name() and t.value == m[0] and t.location.line in additions for t in tokens)]
+        if got != exp:
+            ctx.violation("marked_relation", case, {"still_reported_or_changed": [x for x in got if x not in exp][:5]})
+        return
     if case.get("decoy"):
         if got != base:
             ctx.violation("decoy_removed_something", case, {"missing": [x for x in base if x not in got][:5]})
